@@ -327,9 +327,9 @@ run_pdi(const Cfg& c, const shared_ptr<Scanner>& scanner, const shared_ptr<ProjD
         continue; // a compressed segment clipped to one ring difference: its axial bookkeeping is the subject (and known finding) of C01
       if (sg == 0 && pc && pc->get_min_ring_difference(0) != -pc->get_max_ring_difference(0))
         {
-          known("segment0:asymmetric-ring-differences-for-even-span-clipped-by-max_delta",
-                "ProjDataInfo::ProjDataInfoCTI with even span and max_delta = span/2-1 clips segment 0 to the ring differences "
-                "[-span/2, span/2-1]: segment 0 is its own opposite segment but has non-zero obliqueness");
+          // (was: even span with max_delta = span/2-1 clipped segment 0 to [-span/2, span/2-1]; such a configuration is now rejected)
+          ++oracle_checks;
+          ofail("segment0-asymmetric", "segment 0 is its own opposite segment but its ring differences are not symmetric about 0");
           continue;
         }
       if (to_model && !pg)
@@ -360,7 +360,7 @@ run_pdi(const Cfg& c, const shared_ptr<Scanner>& scanner, const shared_ptr<ProjD
               ofail("tantheta-antisym", "opposite segments do not have opposite tan(theta) at bin " + bstr(b));
             if (sg > 0 && pc && !pg && !(tt > 0))
               ofail("tantheta-sign", "positive segment with non-positive tan(theta) at bin " + bstr(b));
-            if (sg == 0 && pc && !pg && pc->get_min_ring_difference(0) == -pc->get_max_ring_difference(0) && tt != 0)
+            if (sg == 0 && pc && !pg && tt != 0)
               ofail("tantheta-zero", "segment 0 with non-zero tan(theta) at bin " + bstr(b));
 
             if (!near(p.get_m(bos), m, 1e-5 * axial_len))
@@ -427,7 +427,6 @@ run_pdi(const Cfg& c, const shared_ptr<Scanner>& scanner, const shared_ptr<ProjD
         Bin nb;
         bool err = false;
         const double dtime = p.get_tof_delta_time(b);
-        bool tof_unsupported = false;
         try
           {
             if (pg)
@@ -435,11 +434,6 @@ run_pdi(const Cfg& c, const shared_ptr<Scanner>& scanner, const shared_ptr<ProjD
                 LORAs2Points<float> pts;
                 lor.get_intersections_with_cylinder(pts, lor.radius());
                 nb = p.get_bin(pts, dtime);
-              }
-            else if (pa && dtime != 0)
-              {
-                tof_unsupported = true;
-                nb = p.get_bin(lor, 0.);
               }
             else
               nb = p.get_bin(lor, dtime);
@@ -459,29 +453,8 @@ run_pdi(const Cfg& c, const shared_ptr<Scanner>& scanner, const shared_ptr<ProjD
           ofail("roundtrip-exception", "get_bin(get_LOR(bin)) throws for bin " + bstr(b));
         else if (pa)
           {
-            if (tof_unsupported)
-              {
-                // arc-corrected TOF data: get_bin refuses a non-zero time difference ("TODO NO TOF YET"); with 0 it returns TOF bin 0
-                bool threw = false;
-                try
-                  {
-                    p.get_bin(lor, dtime);
-                  }
-                catch (...)
-                  {
-                    threw = true;
-                  }
-                Bin want(sg, v, a, tp, 0, 1.F);
-                if (miss || !(nb == want))
-                  ofail("roundtrip-arccorr", "arc-corrected round trip (ignoring TOF) does not return the same spatial bin for " + bstr(b));
-                else if (threw)
-                  known("arccorr-tof:get_bin-rejects-nonzero-delta-time",
-                        "ProjDataInfoCylindricalArcCorr::get_bin calls error() for any non-zero TOF time difference, so the LOR of an "
-                        "arc-corrected TOF bin with timing position != 0 cannot be converted back to its bin");
-                else
-                  ofail("roundtrip-arccorr-tof", "arc-corrected get_bin accepts a time difference but the oracle was not updated");
-              }
-            else if (miss || !(nb == b))
+            // (all TOF bins: get_bin is given get_tof_delta_time(bin))
+            if (miss || !(nb == b))
               ofail("roundtrip-arccorr", "arc-corrected round trip does not return the same bin for " + bstr(b) + " -> "
                                              + (miss ? std::string("miss") : bstr(nb)));
             else
@@ -503,7 +476,7 @@ run_pdi(const Cfg& c, const shared_ptr<Scanner>& scanner, const shared_ptr<ProjD
                       known("roundtrip:miss-at-tangential-edge",
                             "get_bin(get_LOR(bin)) reports a miss for a bin at the first/last tangential position that is not at the "
                             "axial edge of a compressed segment: rounding to the nearest detectors moves the bin one tangential step "
-                            "outwards, out of the tangential range of the data");
+                            "outwards, out of the tangential range of the data (at |tp| = N/2-1: onto one and the same detector)");
                     else
                       ofail("roundtrip-miss", "get_bin(get_LOR(bin)) misses although the bin is not at an edge: " + bstr(b));
                   }
@@ -524,21 +497,7 @@ run_pdi(const Cfg& c, const shared_ptr<Scanner>& scanner, const shared_ptr<ProjD
                 const int dax = nb.axial_pos_num() - a;
                 if (dseg != 0 || dtof != 0 || dview > 1 || std::abs(dtp) > 1 || std::abs(dax) > 1
                     || (V > 2 && wrap && dview == 0))
-                  {
-                    // do the two end points round to the same detector?  (then get_bin reads the never-initialised diagonal of its table)
-                    LORInCylinderCoordinates<float> cyl;
-                    lor.change_representation(cyl, pc->get_ring_radius());
-                    const float tilt = scanner->get_intrinsic_azimuthal_tilt();
-                    const int e1 = modulo(stir::round((cyl.p1().psi() - tilt) / (2. * PI / N)), N);
-                    const int e2 = modulo(stir::round((cyl.p2().psi() - tilt) / (2. * PI / N)), N);
-                    if (e1 == e2 && std::abs(tp) == N / 2 - 1)
-                      known("roundtrip:coincident-nearest-detectors-at-extreme-tangential-position",
-                            "for a bin at the extreme tangential position |tp| = N/2-1 both end points of its LOR can round to the SAME detector; "
-                            "ProjDataInfoCylindricalNoArcCorr::get_bin then reads det1det2_to_uncompressed_view_tangpos[d][d], which "
-                            "initialise_det1det2_to_uncompressed_view_tangpos never writes, and returns an arbitrary bin with value 1 instead of a miss");
-                    else
-                      ofail("roundtrip-step", "get_bin(get_LOR(bin)) is more than one step away: " + bstr(b) + " -> " + bstr(nb));
-                  }
+                  ofail("roundtrip-step", "get_bin(get_LOR(bin)) is more than one step away: " + bstr(b) + " -> " + bstr(nb));
                 else if (nb == b)
                   ++total.rt_same;
                 else if (wrap)
@@ -609,7 +568,8 @@ run_pdi(const Cfg& c, const shared_ptr<Scanner>& scanner, const shared_ptr<ProjD
           else if (std::fabs(ard - nominal) > 1e-6)
             {
               // get_tantheta (nominal middle of the segment's ring differences) differs from the average over the contributing pairs
-              if (!complete && std::fabs(ard - nominal) <= (hi - lo) / 2.0 + 1e-6)
+              const bool near_axial_end = a - p.get_min_axial_pos_num(sg) < hi - lo || p.get_max_axial_pos_num(sg) - a < hi - lo;
+              if (!complete && near_axial_end && std::fabs(ard - nominal) <= (hi - lo) / 2.0 + 1e-6)
                 known("obliqueness:ring-pair-list-cut-at-axial-edge",
                       "for an axially compressed oblique segment the ring pairs contributing to the first/last axial positions are only part of "
                       "the segment's ring differences (the others fall outside the scanner), so their average obliqueness differs from "
@@ -826,17 +786,7 @@ run_generic(const Cfg& c, const shared_ptr<Scanner>& scanner, const shared_ptr<P
             if (!near(l.m - zc, m, 2e-4 * ax_len))
               ofail("generic-m", "get_m differs from the axial midpoint of the line through the detectors at bin " + bstr(b));
             if (!near(l.tantheta, tt, 2e-4 * (1 + std::fabs(tt)) * rr * rr / std::max(1e-9, rr * rr - s * s)))
-              {
-                // class of the candidate finding: tan(theta) computed as dz/(2R), i.e. scaled by cos(beta)
-                const double cosb = std::sqrt(std::max(0.0, 1 - (s / rr) * (s / rr)));
-                if (near(tt, l.tantheta * cosb, 2e-4 * (1 + std::fabs(tt))))
-                  known("generic:get_tantheta-is-dz-over-2R",
-                        "ProjDataInfoGeneric::get_tantheta returns (z2-z1)/(2*radius) instead of (z2-z1)/(transaxial length of the chord): "
-                        "it is too small by the factor cos(beta)=sqrt(1-(s/R)^2) for bins with non-zero tangential offset, so the "
-                        "obliqueness (and get_costheta/get_t/get_sampling_in_t derived from it) does not match the line through the detectors");
-                else
-                  ofail("generic-tantheta", "get_tantheta differs from the obliqueness of the line through the detectors at bin " + bstr(b));
-              }
+              ofail("generic-tantheta", "get_tantheta differs from the obliqueness of the line through the detectors at bin " + bstr(b));
             // ORACLE: antisymmetry between opposite segments
             if (a <= p.get_max_axial_pos_num(-sg))
               {
@@ -1088,18 +1038,8 @@ run_arc(vh::Rng& rng, int ncases)
                 if (lo >= in_lo + 1e-3 && hi <= in_hi - 1e-3)
                   {
                     if (!near(res[j], 1.0, 2e-3))
-                      {
-                        // class of the candidate finding: the LAST arc-corrected box is [(max-.5)D, (max+1.5)D], twice as wide as the others
-                        const double wide_hi = std::min((j + 1.5) * dout, in_hi);
-                        if (j == omax && near(res[j], (wide_hi - lo) / dout, 2e-3))
-                          known("arccorr:last-output-bin-is-two-bins-wide",
-                                "ArcCorrection::set_up sets the right edge of the last arc-corrected bin to (max_tangential_pos+1.5)*sampling instead of "
-                                "(max_tangential_pos+0.5)*sampling: when the arc-corrected range ends inside the measured range, uniform data "
-                                "give 2 (not 1) in the last bin, and data beyond the last bin are added to it");
-                        else
-                          ofail("arc-uniform-data", "arc correction of uniform data is not uniform away from the edges (N=" + std::to_string(c.N)
-                                                        + " j=" + std::to_string(j) + " value=" + std::to_string(res[j]) + ")");
-                      }
+                      ofail("arc-uniform-data", "arc correction of uniform data is not uniform away from the edges (N=" + std::to_string(c.N)
+                                                    + " j=" + std::to_string(j) + " value=" + std::to_string(res[j]) + ")");
                   }
                 else if (hi <= in_lo - 1e-3 || lo >= in_hi + 1e-3)
                   {
